@@ -132,11 +132,25 @@ Proof. intros HA. explicit4 HA. unfold M4. cbn. list_eq; ring. Qed.
 Lemma mmul_assoc4 A B C : wf4 A -> wf4 B -> wf4 C -> Rmmul (Rmmul A B) C = Rmmul A (Rmmul B C).
 Proof. intros HA HB HC. explicit4 HA. explicit4 HB. explicit4 HC. unfold M4. cbn. list_eq; ring. Qed.
 
-(* mixed-product property for 4x4 ⊗ 4x4 *)
+(* mixed-product property for 4x4 ⊗ 4x4, row by row *)
+Definition krow (a b : list R) : list R := flat_map (fun x => Rscale x b) a.
+Lemma krow_mixed arow brow C D : length arow = 4%nat -> length brow = 4%nat -> wf4 C -> wf4 D ->
+  Rvmat (krow arow brow) (Rkron C D) = krow (Rvmat arow C) (Rvmat brow D).
+Proof.
+  intros Ha Hb HC HD. apply len4_inv in Ha as (a1 & a2 & a3 & a4 & ->).
+  apply len4_inv in Hb as (b1 & b2 & b3 & b4 & ->). explicit4 HC. explicit4 HD.
+  unfold M4, krow. cbn. list_eq; ring.
+Qed.
 Lemma kron_mixed4 A B C D : wf4 A -> wf4 B -> wf4 C -> wf4 D ->
   Rmmul (Rkron A B) (Rkron C D) = Rkron (Rmmul A C) (Rmmul B D).
 Proof.
-  intros HA HB HC HD. explicit4 HA. explicit4 HB. explicit4 HC. explicit4 HD.
-  unfold M4. cbn. list_eq; ring.
+  intros [_ HA] [_ HB] HC HD. unfold mmul at 1 2 3.
+  change (Rkron A B) with (flat_map (fun arow => map (fun brow => krow arow brow) B) A).
+  change (Rkron (map (fun row => Rvmat row C) A) (map (fun row => Rvmat row D) B))
+    with (flat_map (fun arow => map (fun brow => krow arow brow) (map (fun row => Rvmat row D) B))
+                   (map (fun row => Rvmat row C) A)).
+  induction A as [|arow A IH]; [reflexivity|].
+  inversion HA as [|? ? Ha HA']; subst. cbn [flat_map map]. rewrite map_app, (IH HA'). f_equal.
+  rewrite !map_map. apply map_ext_in. intros brow Hin.
+  rewrite Forall_forall in HB. apply krow_mixed; auto.
 Qed.
-
